@@ -330,6 +330,56 @@ def rule_rust(ctx):
     sat = [f for f in F.fn_list if f.name.endswith("satisfies_text_predicates")]
     if sat:
         ctx.ok("R1", "satisfies_text_predicates:present", "QueryMatch::satisfies_text_predicates analysed (%d blocks)" % len(sat[0].blocks), nontrivial=False)
+    rule_any_all(ctx, F)
+
+
+def rule_any_all(ctx, F):
+    """T1: `#any-eq?`, `#any-not-eq?`, `#any-match?` … hold only if some captured node satisfies them.  In the three
+    predicate arms that carry a `match_all_nodes` flag, the answer `true` is given only after (a) a node satisfied the
+    test, or (b) the flag says *all* nodes must pass and none failed, or (c) there was no node at all.  A plain `true`
+    after the loop accepts a match in which no node satisfies an `any-` predicate."""
+    import rsrules
+    from rsrules import cond_text
+    cl = [f for f in F.fn_list if "satisfies_text_predicates::{closure#0}" in f.name and f.name.count("{closure") == 1]
+    if len(cl) != 1:
+        ctx.bad("T1", "satisfies_text_predicates:closure", "the per-predicate closure of satisfies_text_predicates was not found exactly once (%d)" % len(cl))
+        return
+    fn = cl[0]
+    trues = [pt for pt, e in fn.points() for x in own_walk(e) if x.get("k") == "assign" and show(x["l"]) == "_0" and strip(x["r"]).get("k") == "int" and strip(x["r"]).get("v") == 1]
+    ARMS = ("EqString", "EqCapture", "MatchString")
+
+    class AnyAll(Monitor):
+        # m = (arm, licensed)
+        def elem(self, m, pt, e, s):
+            if pt in trues and m[0] in ARMS and not m[1]:
+                return Viol("answers `true` in the %s arm although no node satisfied the predicate, the all-nodes flag was not consulted and the node list was not found empty" % m[0], pt)
+            return m
+
+        def edge(self, m, bid, edge, cond, truth, s):
+            if cond is None:
+                return m
+            if isinstance(edge.lab, dict):
+                txt, _ = cond_text(fn, cond, True)
+                if txt == "discriminant(*predicate)" or txt.startswith("discriminant(*predicate"):
+                    return (edge.lab.get("name") or "other", False)
+                return m
+            if truth is None:
+                return m
+            txt, t = cond_text(fn, cond, truth)
+            if ("is_positive_match == " in txt and t) or ("is_positive_match != " in txt and not t):
+                return (m[0], True)
+            if "match_all_nodes" in txt and t:
+                return (m[0], True)
+            if ("is_empty" in txt or "is_none(" in txt) and "peek" in txt and t:
+                return (m[0], True)
+            return m
+    sr = Search(fn, AnyAll(), budget=400000)
+    v = sr.run(("start", False))
+    if v is None:
+        ctx.ok("T1", "satisfies_text_predicates:any-needs-a-witness", "in the EqString / EqCapture / MatchString arms `true` is answered only with a satisfying node, under the all-nodes flag, or for an empty node list (%d states)" % sr.states)
+    else:
+        ctx.bad("T1", "satisfies_text_predicates:any-needs-a-witness", "satisfies_text_predicates %s (%s): `(#any-eq? @k \"zz\")` accepts matches in which no @k node equals \"zz\"" % (v.msg, fn.loc(v.pt)),
+                {"path": sr.render_path(v.path)[-6:]})
 
 
 RANGE_SETTERS = {"ts_query_cursor_set_byte_range", "ts_query_cursor_set_point_range", "ts_query_cursor_set_containing_byte_range", "ts_query_cursor_set_containing_point_range",
